@@ -140,12 +140,24 @@ fn c21_fill_before_external() {
     assert_eq!(w, vec![(0x3000, Some(0x4000))]);
 }
 #[test]
-fn c21b_known_finding() {
-    // assemble() (no debug symbols) drops the symbol table, hence the external declaration:
-    // loading succeeds and the .fill word silently stays 0.  Recorded as a known finding.
+fn c21b_assemble_without_debug_keeps_externals() {
+    // assemble() (no debug symbols) used to drop the symbol table, hence the external declaration:
+    // loading succeeded and the .fill word silently stayed 0.
     let o = assemble(parse_ast(".external X\n.orig x3000\n.fill X\n.end").unwrap()).unwrap();
     let mut sim = Simulator::new(Default::default());
-    assert!(sim.load_obj_file(&o).is_ok(), "known finding no longer reproduces: update known_findings.txt");
+    assert!(sim.load_obj_file(&o).is_err(), "an unresolved external must be reported at load time");
+    // and linking with a definition resolves the word
+    let lib = assemble(parse_ast(".orig x4000\nX .fill 7\n.end").unwrap()).unwrap();
+    let lib_dbg = asm_dbg(".orig x4000\nX .fill 7\n.end");
+    let _ = lib;
+    let linked = ObjectFile::link(o, lib_dbg).unwrap();
+    let w: Vec<_> = linked.addr_iter().filter(|&(a, _)| a == 0x3000).collect();
+    assert_eq!(w, vec![(0x3000, Some(0x4000))]);
+    let mut sim = Simulator::new(Default::default());
+    assert!(sim.load_obj_file(&linked).is_ok());
+    // programs without externals still carry no table without debug symbols
+    let plain = assemble(parse_ast(".orig x3000\nHALT\n.end").unwrap()).unwrap();
+    assert!(plain.symbol_table().is_none());
 }
 #[test]
 fn c22_label_span_after_link() {
